@@ -1,10 +1,10 @@
 SPECIFICATION Spec
 CONSTANTS
   NVB = 2
-  InitLog <- OldLog
-  MaxSeq = 2
+  InitLog <- HistA
+  MaxSeq = 3
   Keys = {"user"}
-  Kinds = {"mut"}
+  Kinds = {"mut", "sys", "adv"}
   OldEvents = FALSE
   BadEvents = FALSE
   FoUuid <- Fo10
